@@ -57,6 +57,50 @@ def lib_shapes():
     return S
 
 
+def library_models():
+    """One model per function of mxlpy.fns used as a rate law, and per pair (derived law, rate law), in both
+    declaration orders of the derived quantities (C12: 'models built from the shipped rate-law library convert
+    whatever the declaration order of their derived quantities')."""
+    import inspect
+
+    import mxlpy.fns as F
+
+    fns = [(n, f) for n, f in sorted(vars(F).items()) if inspect.isfunction(f) and f.__module__ == F.__name__ and not n.startswith("_")]
+    S = []
+    variables = ["x", "y", "z"]
+
+    def args_for(f, pool_vars, prefix):
+        names = list(inspect.signature(f).parameters)
+        out, params = [], []
+        vi = 0
+        for a in names:
+            if a.startswith(("s", "p", "x", "inside", "outside")) and a not in ("x_total",) and vi < len(pool_vars):
+                out.append(pool_vars[vi])
+                vi += 1
+            else:
+                pn = f"{prefix}_{a}"
+                out.append(pn)
+                params.append(pn)
+        return out, params
+
+    for n, f in fns:
+        a, params = args_for(f, variables, "r")
+        S.append(dict(name=f"libfn/{n}", params=[(p_, None) for p_ in params] or [("r_dummy", None)], vars=[(v, None) for v in variables],
+                      reactions=[("v1", f, a, {"x": -1, "y": 1}), ("v2", F.mass_action_1s, ["y", params[0] if params else "r_dummy"], {"y": -1, "z": 0.5})]))
+    derived_fns = [(n, f) for n, f in fns if n in ("add", "mul", "minus", "div", "moiety_1s", "moiety_2s", "twice", "neg", "proportional", "one_div", "neg_div")]
+    for (n1, f1), (n2, f2) in [(a, b) for a in derived_fns for b in derived_fns if a[0] <= b[0]]:
+        a1, p1 = args_for(f1, ["x", "y"], "d1")
+        names2 = list(inspect.signature(f2).parameters)
+        a2 = ["dq1"] + [f"d2_{q}" for q in names2[1:]]
+        p2 = a2[1:]
+        for rev in (False, True):
+            derived = [("dq1", f1, a1), ("dq2", f2, a2)]
+            S.append(dict(name=f"libchain/{n1}-{n2}{'/rev' if rev else ''}", params=[(p_, None) for p_ in p1 + p2 + ["k"]],
+                          vars=[("x", None), ("y", None)], derived=derived[::-1] if rev else derived,
+                          reactions=[("v1", F.mass_action_2s, ["x", "dq2", "k"], {"x": -1, "y": 1})]))
+    return S
+
+
 class Sym(Scenario):
     modules = ["mxlpy.model", "mxlpy.simulator", "mxlpy.integrators.int_scipy"]
     float_shim = ["mxlpy.model", "mxlpy.simulator"]
@@ -78,7 +122,7 @@ class Sym(Scenario):
         except Exception as e:  # noqa: BLE001  a visible failure is acceptable
             ctx.note(f"refused: {type(e).__name__}")
             ctx.true("conversion refused (raised)", True)
-            if self.spec["name"].startswith("lib_"):
+            if self.spec["name"].startswith("lib"):
                 ctx.true("models built from the shipped rate-law library convert whatever the declaration order", False,
                          info=f"{type(e).__name__}: {e}")
             return
@@ -219,6 +263,8 @@ def scenarios(tier, seed):
             [M.permuted(s, "derived", -1)] if len(s.get("derived", [])) >= 2 else [])
         for o in orders:
             scs.append(Sym(o))
+    lib = library_models()
+    scs += [Sym(s_) for s_ in (lib if tier != "quick" else [l_ for l_ in lib if l_["name"].startswith("libfn/") or l_["name"].endswith("/rev")][::2])]
     if tier != "quick":
         scs += [Sym(g) for g in M.grammar_shapes(with_surrogates=False)]
     jac_specs = [s for s in base if s["name"] in ("chain2", "mm_moiety", "lib_mm_rev", "untouched", "time_dep", "frac_coef")]
